@@ -3,11 +3,19 @@
 //! harness replay [--ops <file>] [--out <file>] [--rewrite <file>]      (default: stdin / stdout)
 //! harness gen --seed <u64> --cases <n> --maxlen <n> --kind <hashmap|lru|pool|all> --profile <name>
 //!             --ops <file> --out <file> --stats <file.json> [--avoid sdrop-order]
+//! harness sgen --seed <u64> --cases <n> --kind <hashmap|lru|pool|all> --threads <0|1..16> --stmts <n>
+//!              [--profile mixed|limit|pool] --ops <file> --out <file> --stats <file.json>
+//! harness sdfs --kind <hashmap|lru|pool> --programs "<prog0> | <prog1> ..." --max-schedules <n>
+//!              --ops <file> --out <file> --stats <file.json>
+//! harness sdfs-gen --seed <u64> --count <n> --kind <hashmap|lru|pool|all> --max-schedules <n>
+//!              --ops <file> --out <file> --stats <file.json>
 
 mod container;
 mod exec;
 mod r#gen;
 mod proto;
+mod sched;
+mod sgen;
 
 use proto::{Kind, Req};
 use std::collections::HashMap;
@@ -18,7 +26,11 @@ use std::process::ExitCode;
 fn usage() -> ExitCode {
     eprintln!(
         "usage:\n  harness replay [--ops <file>] [--out <file>] [--rewrite <file>]    (default: stdin / stdout)\n  harness gen --seed <u64> --cases <n> --maxlen <n> --kind <hashmap|lru|pool|all> \
-         --profile <mixed|cancel|limit|expire|stream|pool> --ops <file> --out <file> --stats <file.json> [--avoid sdrop-order]"
+         --profile <mixed|cancel|limit|expire|stream|pool> --ops <file> --out <file> --stats <file.json> [--avoid sdrop-order]\n  \
+         harness sgen --seed <u64> --cases <n> --kind <hashmap|lru|pool|all> --threads <0|1..16> --stmts <n> [--profile mixed|limit|pool] \
+         --ops <file> --out <file> --stats <file.json>\n  \
+         harness sdfs --kind <hashmap|lru|pool> --programs \"<prog0> | <prog1> ...\" --max-schedules <n> --ops <file> --out <file> --stats <file.json>\n  \
+         harness sdfs-gen --seed <u64> --count <n> --kind <hashmap|lru|pool|all> --max-schedules <n> --ops <file> --out <file> --stats <file.json>"
     );
     ExitCode::from(2)
 }
@@ -129,6 +141,163 @@ fn generate(flags: &HashMap<String, String>) -> Result<(), String> {
     Ok(())
 }
 
+fn open_out(flags: &HashMap<String, String>, k: &str) -> Result<BufWriter<File>, String> {
+    let p = flags.get(k).ok_or(format!("missing --{k}"))?;
+    Ok(BufWriter::new(File::create(p).map_err(|e| format!("{p}: {e}"))?))
+}
+
+fn flag_num(flags: &HashMap<String, String>, k: &str) -> Result<u64, String> {
+    flags
+        .get(k)
+        .ok_or(format!("missing --{k}"))?
+        .parse::<u64>()
+        .map_err(|e| format!("--{k}: {e}"))
+}
+
+fn flag_kind(flags: &HashMap<String, String>) -> Result<(String, Option<Kind>), String> {
+    let kind_s = flags.get("kind").ok_or("missing --kind")?.clone();
+    let kind = match kind_s.as_str() {
+        "all" => None,
+        k => Some(Kind::parse(k).ok_or(format!("--kind: unknown kind {k}"))?),
+    };
+    Ok((kind_s, kind))
+}
+
+const KINDS: [Kind; 3] = [Kind::HashMap, Kind::Lru, Kind::Pool];
+
+/// random programs with random schedules
+fn sgen(flags: &HashMap<String, String>) -> Result<(), String> {
+    let seed = flag_num(flags, "seed")?;
+    let cases = flag_num(flags, "cases")?;
+    let threads = flag_num(flags, "threads")?;
+    if threads != 0 && !(1..=16).contains(&threads) {
+        return Err("--threads: 0 (random 2..4) or 1..16".to_string());
+    }
+    let stmts = flag_num(flags, "stmts")?;
+    let (kind_s, kind) = flag_kind(flags)?;
+    let profile = flags.get("profile").cloned().unwrap_or_else(|| "mixed".to_string());
+    let soft_pct = match profile.as_str() {
+        "mixed" | "pool" => 25,
+        "limit" => 60,
+        p => return Err(format!("--profile: unknown profile {p}")),
+    };
+    let mut ops = open_out(flags, "ops")?;
+    let mut out = open_out(flags, "out")?;
+    let stats_path = flags.get("stats").ok_or("missing --stats")?;
+    let json = {
+        let mut rng = r#gen::Rng::new(seed);
+        let mut run = sgen::SRun::new(&mut ops, &mut out);
+        for i in 0..cases {
+            let k = match (profile.as_str(), kind) {
+                ("pool", _) => Kind::Pool,
+                (_, Some(k)) => k,
+                (_, None) => KINDS[(i % 3) as usize],
+            };
+            let n = if threads == 0 { rng.range(2, 4) } else { threads };
+            let cfg = sgen::ProgCfg {
+                kind: k,
+                nkeys: rng.range(1, 3) as u32,
+                max_stmts: stmts,
+                max_locks: u64::MAX,
+                soft_pct,
+            };
+            let progs: Vec<_> = (0..n).map(|_| sgen::gen_program(&mut rng, &cfg)).collect();
+            writeln!(run.ops, "# case {i} kind={} threads={n} keys={}", k.name(), cfg.nkeys).map_err(|e| e.to_string())?;
+            run.run_random(&mut rng, k, &progs).map_err(|e| format!("i/o error: {e}"))?;
+        }
+        run.stats.to_json(&[
+            ("mode", "\"sgen\"".to_string()),
+            ("seed", seed.to_string()),
+            ("kind", format!("\"{kind_s}\"")),
+            ("profile", format!("\"{profile}\"")),
+            ("threads", threads.to_string()),
+            ("stmts", stmts.to_string()),
+        ])
+    };
+    ops.flush().map_err(|e| e.to_string())?;
+    out.flush().map_err(|e| e.to_string())?;
+    std::fs::write(stats_path, json).map_err(|e| format!("{stats_path}: {e}"))
+}
+
+/// all schedules of the given programs
+fn sdfs(flags: &HashMap<String, String>) -> Result<(), String> {
+    let (kind_s, kind) = flag_kind(flags)?;
+    let kind = kind.ok_or("--kind: one of hashmap, lru, pool")?;
+    let max = flag_num(flags, "max-schedules")?;
+    let programs = flags.get("programs").ok_or("missing --programs")?;
+    let progs: Vec<Vec<proto::Stmt>> = programs
+        .split('|')
+        .map(|p| proto::parse_program(p).ok_or(format!("--programs: cannot parse '{}'", p.trim())))
+        .collect::<Result<_, _>>()?;
+    if progs.is_empty() || progs.len() > 16 {
+        return Err("--programs: 1..16 programs".to_string());
+    }
+    let mut ops = open_out(flags, "ops")?;
+    let mut out = open_out(flags, "out")?;
+    let stats_path = flags.get("stats").ok_or("missing --stats")?;
+    let json = {
+        let mut run = sgen::SRun::new(&mut ops, &mut out);
+        let exhausted = run.run_dfs(kind, &progs, max).map_err(|e| format!("i/o error: {e}"))?;
+        run.stats.program_sets = 1;
+        run.stats.program_sets_exhausted = exhausted as u64;
+        run.stats.to_json(&[
+            ("mode", "\"sdfs\"".to_string()),
+            ("kind", format!("\"{kind_s}\"")),
+            ("max_schedules", max.to_string()),
+            ("exhausted", exhausted.to_string()),
+        ])
+    };
+    ops.flush().map_err(|e| e.to_string())?;
+    out.flush().map_err(|e| e.to_string())?;
+    std::fs::write(stats_path, json).map_err(|e| format!("{stats_path}: {e}"))
+}
+
+/// all schedules of random small program sets
+fn sdfs_gen(flags: &HashMap<String, String>) -> Result<(), String> {
+    let seed = flag_num(flags, "seed")?;
+    let count = flag_num(flags, "count")?;
+    let max = flag_num(flags, "max-schedules")?;
+    let (kind_s, kind) = flag_kind(flags)?;
+    let mut ops = open_out(flags, "ops")?;
+    let mut out = open_out(flags, "out")?;
+    let stats_path = flags.get("stats").ok_or("missing --stats")?;
+    let json = {
+        let mut rng = r#gen::Rng::new(seed);
+        let mut run = sgen::SRun::new(&mut ops, &mut out);
+        for i in 0..count {
+            let k = kind.unwrap_or(KINDS[(i % 3) as usize]);
+            let cfg = sgen::ProgCfg {
+                kind: k,
+                nkeys: 2,
+                max_stmts: 5,
+                max_locks: 2,
+                soft_pct: 30,
+            };
+            let progs: Vec<_> = (0..2).map(|_| sgen::gen_program(&mut rng, &cfg)).collect();
+            writeln!(
+                run.ops,
+                "# program set {i} kind={}: {} | {}",
+                k.name(),
+                proto::program_str(&progs[0]),
+                proto::program_str(&progs[1])
+            )
+            .map_err(|e| e.to_string())?;
+            let exhausted = run.run_dfs(k, &progs, max).map_err(|e| format!("i/o error: {e}"))?;
+            run.stats.program_sets += 1;
+            run.stats.program_sets_exhausted += exhausted as u64;
+        }
+        run.stats.to_json(&[
+            ("mode", "\"sdfs-gen\"".to_string()),
+            ("seed", seed.to_string()),
+            ("kind", format!("\"{kind_s}\"")),
+            ("max_schedules", max.to_string()),
+        ])
+    };
+    ops.flush().map_err(|e| e.to_string())?;
+    out.flush().map_err(|e| e.to_string())?;
+    std::fs::write(stats_path, json).map_err(|e| format!("{stats_path}: {e}"))
+}
+
 fn main() -> ExitCode {
     let args: Vec<String> = std::env::args().collect();
     if args.len() < 2 {
@@ -141,6 +310,9 @@ fn main() -> ExitCode {
     let r = match args[1].as_str() {
         "replay" => replay(&flags),
         "gen" => generate(&flags),
+        "sgen" => sgen(&flags),
+        "sdfs" => sdfs(&flags),
+        "sdfs-gen" => sdfs_gen(&flags),
         _ => return usage(),
     };
     match r {
